@@ -265,11 +265,16 @@ def get_source_info_str(source, ignore_encoding=True):
 
     line_tally = 10000  # Check up to this number of non-comment lines
     is_free = False
+    in_directive = False
     while line_tally > 0 and lines:
         line = lines.pop(0).rstrip()
-        # Comment lines and preprocessor directives say nothing about the
-        # form of the Fortran source.
-        if line and line[0] not in "!#":
+        # Comment lines and preprocessor directives (including their
+        # backslash-continued lines) say nothing about the form of the
+        # Fortran source.
+        if in_directive or line[:1] == "#":
+            in_directive = line.endswith("\\")
+            continue
+        if line and line[0] != "!":
             line_tally -= 1
             if line[0] != "\t" and _FREE_FORMAT_START(line[:5]) or line[-1:] == "&":
                 is_free = True
